@@ -27,6 +27,8 @@ def call_of(name, rnd, route, script, kind):
                 "intent": {"items": [{"pos": 0, "bit": -1, "sub": "", "count": 1, "valid": 1, "value": {"none": 1}, "ftype": "N", "file": 7, "elem": e}]}}
     c, s = S.generic_call(rnd, route, mode="connected" if name == "msgC" else rnd.choice(["ucmm", "ucsend"]),
                           script={"status": 0, "ext": [], "data": [1, 2, 3]})
+    if name == "msgC" and rnd.random() < 0.3:
+        c["kwargs"]["unconnected_send"] = True          # both flags: a connected message (the Unconnected Send wrapper does not apply)
     script.append(s)
     return c
 
@@ -100,6 +102,8 @@ def build(ctx, rnd, thorough):
             scs[-1]["faults"] = [{"at": "op", "n": f1, "kind": "raise"}, {"at": "op", "n": f1 + rnd.randint(1, 12), "kind": fk}]
             scs[-1]["fault"] = scs[-1]["faults"][1]
             scs[-1]["family"] += "-two-faults"
+        if j % 7 == 3:                      # the network takes every frame in small pieces
+            scs[-1]["sendchunk"] = rnd.choice([7, 9, 24])
         if j % 3 == 0:                      # replies arrive in small TCP segments: the fault may fall inside a frame
             scs[-1]["chunk"] = rnd.choice([30, 24, 7, 1])
             scs[-1]["fault"] = None if fk == "none" else {"at": "op", "n": rnd.randint(1, 80), "kind": fk}
